@@ -174,12 +174,31 @@ func c01RunOne(src string) (status, msg string) {
 	}
 }
 
+// a struct type of more than 64 KiB: reflect refuses it as a channel element
+func c01BigStruct() string {
+	var fs []string
+	for i := 0; i < 8200; i++ {
+		fs = append(fs, fmt.Sprintf("A%d int64", i))
+	}
+	return "struct { " + strings.Join(fs, ", ") + " }"
+}
+
 func c01Degenerate() []string {
+	return append(c01DegenerateForms(), "make(chan "+c01BigStruct()+")", "c = make(chan "+c01BigStruct()+", 1); c <- nil", "make([]chan "+c01BigStruct()+", 1)",
+		"make(type Big, make("+c01BigStruct()+")); make(chan Big)")
+}
+
+func c01DegenerateForms() []string {
 	return []string{
 		"var a =", "var a, b =", "x = 1; *x = 2", "f = func(a) { }; f(...)", "f = func(a, b) { }; f(...)", "probe(...)",
 		"a = nilptrs; for x in a { x }", "\"s\" * 9223372036854775807", "\"ab\" * 4611686018427387904", "go boom()", "go boomv(1)",
 		"go func() { boom() }()", "a = 1; make(a.b)", "add([1, 2]...)", "hfix3([1, 2, 3]...)", "cat([\"a\", \"b\"]...)", "add(list...)",
 		"x = nilptrs[0]; \"s\" + x",
+		// strings whose characters take several bytes: every index below the byte length, slices, stores, loops
+		"a = \"é\"; a[1]", "a = \"é\"; a[0]", "a = \"日本語\"; a[3]", "a = \"日本語\"; a[8]", "a = \"naïve\"; a[len(a) - 1]", "a = \"日本語\"; for i = 0; i < len(a); i++ { a[i] }",
+		"a = \"日本語\"; for i = 0; i <= len(a); i++ { a[0:i] }", "a = \"日本語\"; for i = 0; i <= len(a); i++ { a[i:] }", "a = \"é\"; a[1] = \"x\"; a", "a = \"日本語\"; a[4] = \"x\"; a",
+		"a = \"日本語\"; a[len(a)] = \"x\"; a", "a = [\"日本語\"]; a[0][7] = \"x\"; a", "a = \"日本語\"; for c in a { c }", "a = \"é\"; a[1:2][0]", "a = \"日本語\"; a[2:5:7]", "\"日本語\"[4]", "a = \"\\xff\\xfe\"; a[1]",
+		"a = \"日本語\"; a[1.5]", "a = \"日本語\"; a[\"2\"]", "a = \"日本語\"; delete(a, 1)", "a = \"é\" * 3; a[5]", "a = \"é\"; a += \"ü\"; a[3]", "a = \"é\"; (\"x\" + a)[2]",
 		// Go arrays bound by the host: every operator and bracket form on them
 		"arr + 1", "arr + [3]", "[3] + arr", "arr += 1", "arr[0:1]", "arr[0:1:2]", "arr[:]", "arr[1:]", "v = arr; v[0:1]", "arrs[0] + 1", "arrs[0][0:1]", "arrs[0] += arrs[0]", "arr + arr", "arr + nothing",
 		"arr + \"s\"", "\"s\" + arr", "arr * 2", "arr - arr", "-arr", "arr[0] = 1", "arr[2]", "arr.x", "arr()", "arr <- 1", "delete(arr, 0)", "for i, v in arr { }", "arr == arr", "arr in [arr]", "[arr...]", "add(arr...)",
